@@ -121,6 +121,18 @@ def shard_arrays(part, tier):
                     m = bytes(m)
                     zm = all(x == 0 for x in m)
                     cases.append((["ct_arr64 %s %s" % (H(m), H(base)), "ct_slice64 %s %s" % (H(m), H(base))], [b(zm) + b(not zm) + "FT"] * 2, None))
+            # the same xor mask in two (or four) different words would cancel in a folding / xor-accumulating comparison
+            for i in range(n):
+                for j in range(i + 1, n):
+                    for mask in (1, 0x8000000000000000, 0xffffffffffffffff, 0x0101010101010101):
+                        m = bytearray(base)
+                        for w in (i, j):
+                            v = int.from_bytes(m[8 * w:8 * w + 8], "little") ^ mask
+                            m[8 * w:8 * w + 8] = v.to_bytes(8, "little")
+                        m = bytes(m)
+                        zm = all(x == 0 for x in m)
+                        cases.append((["ct_arr64 %s %s" % (H(m), H(base)), "ct_slice64 %s %s" % (H(base), H(m))],
+                                      [b(zm) + b(not zm) + "FT", b(z) + b(not z) + "FT"], None))
         cases.append((["ct_slice64 %s %s" % (H(bytes(8 * n)), H(bytes(8 * n + 8)))], ["PANIC"], None))
     ck.run(cases)
     ck.stats.states = len(cases)
